@@ -441,3 +441,59 @@ def relabelled_automata(tier, rng, rep):
                 rep.case(key=(t, mname, inplace), nontrivial=mname != "fresh", sample=inp if (t, mname, inplace) == (0, "swap_aA", True) else None)
                 if len(rep.failures) >= 3:
                     return
+
+
+@bounded(P, "automata_sharing_a_source_dictionary", functions=F_ALL + ["geometry_tools/automata/fsa.py:FSA._from_graph_dict", "geometry_tools/automata/fsa.py:FSA.__init__"],
+         note="history: the automaton A is built from a dictionary that the caller then edits (inner dictionaries included) to describe the next automaton, and a second automaton B is built from "
+              "A.graph_dict and edited in place; A's accepted words, its own enumeration and the returned matrices remain those of the automaton A was built as")
+def automata_sharing_a_source_dictionary(tier, rng, rep):
+    N = 120 if tier == 'thorough' else 30
+    rep.rule = "random automata on 2..4 states over {a, b, A}; edits: caller adds / removes / redirects entries of the inner dictionaries; B = FSA(A.graph_dict) then add_edges / delete_vertex / recurrent(inplace=True) on B; lengths 0..3"
+    rep.bound = f"{N} automata x 2 histories"
+    for t in range(N):
+        nv = int(rng.integers(2, 5))
+        d = {v: {l: int(rng.integers(0, nv)) for l in ["a", "b", "A"] if rng.random() < 0.7} for v in range(nv)}
+        d0 = copy.deepcopy(d)
+        M = Model.from_graph_dict(d0)
+        for hist in ("caller_edits_its_dictionary", "second_automaton_from_graph_dict"):
+            inp = {"graph_dict": {str(k): v for k, v in d0.items()}, "history": hist}
+
+            def body():
+                src = copy.deepcopy(d0)
+                A = fsa.FSA(src, [0])
+                if hist == "caller_edits_its_dictionary":
+                    for v in list(src):
+                        for l in ["a", "b", "A"]:
+                            r = rng.random()
+                            if r < 0.3:
+                                src[v][l] = int(rng.integers(0, nv))
+                            elif r < 0.5:
+                                src[v].pop(l, None)
+                    src[nv] = {"a": 0}
+                else:
+                    B = fsa.FSA(A.graph_dict, list(A.start_vertices))
+                    free = [(v, l) for v in range(nv) for l in ["a", "b", "A"] if l not in d0[v]]
+                    for (v, l) in free[:2]:
+                        B.add_edges([(v, int(rng.integers(0, nv)), l)])
+                    if nv > 2:
+                        B.delete_vertex(nv - 1)
+                    B.recurrent(inplace=True)
+                R, mats = make_rep(["a", "b", "A"])
+                for L in range(0, 4):
+                    want = sorted("".join(w) for n in range(L + 1) for w, _ in M.paths(0, n))
+                    ms, ws = R.automaton_accepted(A, L, with_words=True)
+                    own = sorted(A.enumerate_words(L, start_vertex=0))
+                    if sorted(ws) != want:
+                        rep.fail("returned_words_are_exactly_the_accepted_words", f"after {hist}, length {L}: {sorted(ws)} vs {want}", {**inp, "length": L}); return
+                    if own != want:
+                        rep.fail("agrees_with_enumerate_words", f"after {hist}, length {L}: the automaton's own enumeration {own} is not that of the automaton it was built as ({want})", {**inp, "length": L}); return
+                    for w in want:
+                        if not A.accepts(w):
+                            rep.fail("returned_words_are_exactly_the_accepted_words", f"after {hist}: {w!r} is no longer accepted", {**inp, "word": w}); return
+                    for Mx, w in zip(ms, ws):
+                        if not np.array_equal(np.asarray(Mx), image(mats, w)):
+                            rep.fail("matrix_is_image_of_its_word", f"{w!r}", {**inp, "word": w}); return
+            rep.attempt("enumeration_runs", inp, body)
+            rep.case(key=(t, hist), nontrivial=True, sample=inp if (t, hist) == (0, "caller_edits_its_dictionary") else None)
+            if len(rep.failures) >= 3:
+                return
